@@ -27,7 +27,7 @@ CG = "btclib.curves.curve_group"
 NT = "btclib.number_theory"
 SINKS = {"_mult_checked", "_libsecp256k1_multi_mult", "_libsecp256k1_multi_mult_", "_jac_from_aff", "_double_mult_python", "_multi_mult_var",
          "libsecp256k1_pubkey_sum", "libsecp256k1_pubkey_tweak_add", "Libsecp256k1PubkeyTweakChain", "add_aff_var", "_add_aff_var", "_mult", "_sec_from_point",
-         "_cached_fixed_base_multiples", "_signed_odd_multiples_aff"}
+         "_cached_fixed_base_multiples", "_signed_odd_multiples_aff", "libsecp256k1_pubkey_from_prvkey"}
 
 # (function, parameter holding the point / points, whether a collection)
 ON_CURVE = [
@@ -93,6 +93,8 @@ def _ancestors(n: ast.AST):
 REDUCE = [
     (f"{CV}.mult", "m"), (f"{CV}.PreparedPoint.mult", "m"), (f"{CV}.double_mult_var", "u"), (f"{CV}.double_mult_var", "v"),
     (f"{CV}._tweak_add_var", "t"), (f"{CV}._TweakChain.point", "t"),
+    # "this is bytes_from_point(mult(prv_key_int, ec.G, ec), ...) and answers what that answers": the same reduction
+    ("btclib.curves.sec_point.bytes_from_prv_key_int", "q"),
 ]
 
 
@@ -267,7 +269,9 @@ def rule_reduce(ctx: Ctx, rep: Report) -> None:
             dn = [i for d in red for i in g.nodes_containing(d.value)]
             sinks = [c for c in own_nodes(fi.node) if isinstance(c, ast.Call) and (call_name(c) in SINKS or call_name(c) in ("tweak_add",)) and v in {x.id for a in c.args for x in ast.walk(a) if isinstance(x, ast.Name)}]
             tg = [i for c in sinks for i in g.nodes_containing(c)]
-            rep.ob(rule, f"{q}({v}):before_use", not tg or g.path_avoiding(tg, dn) is None, fi.where(), "reduced before the multiplication")
+            held = not tg or g.path_avoiding(tg, dn) is None
+            rep.ob(rule, f"{q}({v}):before_use", held, fi.where(), "reduced before the multiplication" if held else
+                   f"a path reaches the multiplication without passing `{norm(red[0])}`: a scalar the test before it lets by (a negative one under `>= n`) is used as it came")
     mm = ctx.func(f"{CV}.multi_mult_var")
     comp = [n for n in own_nodes(mm.node) if isinstance(n, ast.ListComp) and norm(n.generators[0].iter) == "scalars"]
     rep.ob(rule, f"{CV}.multi_mult_var(scalars)", bool(comp) and norm(comp[0].elt) == "int_from_integer(s) % ec.n", mm.where(), "every scalar reduced mod n")
@@ -416,7 +420,42 @@ def rule_point_coordinates_unreduced_(ctx: Ctx, rep: Report) -> None:
     rule_point_coordinates_unreduced(ctx, rep, "C01.point_coordinates_unreduced", ('btclib.curves', 'btclib.ecc'))
 
 
+def rule_draw_never_empty(ctx: Ctx, rep: Report) -> None:
+    """C01.draw_never_empty: the randomised helpers (the blinding factor of a
+    Jacobian point, the masks of the modular inverses) draw with
+    `secrets.randbelow(M - c)`, which raises on an empty range: with c = 1
+    every modulus from 2 up has something to draw, with c >= 2 the smallest
+    fields the constructor admits (F_3) have not, unless a test `M > c`
+    stands in front. "On every curve" includes the toy ones."""
+    rule = "C01.draw_never_empty"
+    n = 0
+    for q, fi in sorted(ctx.prog.functions.items()):
+        if not (q.startswith("btclib.curves.") or q.startswith("btclib.number_theory.")):
+            continue
+        for c in own_nodes(fi.node):
+            if not (isinstance(c, ast.Call) and call_name(c) == "randbelow" and len(c.args) == 1):
+                continue
+            e = c.args[0]
+            n += 1
+            if not (isinstance(e, ast.BinOp) and isinstance(e.op, ast.Sub) and isinstance(e.right, ast.Constant) and isinstance(e.right.value, int)):
+                rep.ob(rule, f"{q}:{norm(c)}", True, fi.where(c), "not of the form M - c")
+                continue
+            k, m = e.right.value, norm(e.left)
+            guarded = False
+            p_ = parent(c)
+            while p_ is not None and p_ is not fi.node:
+                if isinstance(p_, (ast.IfExp, ast.If)) and norm(p_.test).replace(" ", "") in (f"{m}>{k}", f"{m}>={k + 1}", f"{k}<{m}"):
+                    guarded = True
+                p_ = parent(p_)
+            ok = k <= 1 or guarded
+            rep.ob(rule, f"{q}:{norm(c)}", ok, fi.where(c), "a range that is never empty" if ok else
+                   f"`{norm(c)}` is an empty range, and a ValueError, for {m} = {k}: every multiplication on a curve over F_{k} fails")
+    rep.floor(rule, 3)
+
+
 RULES = [
+    ("C01.draw_never_empty", rule_draw_never_empty),
+
     ("C01.point_coordinates_unreduced", rule_point_coordinates_unreduced_),
 
     ("C01.bindings_behind_dispatch", rule_bindings_behind_dispatch),
